@@ -3,6 +3,7 @@
 from __future__ import annotations
 
 import ast
+import re
 from typing import Dict, List, Optional, Set, Tuple
 
 from .. import effects
@@ -41,6 +42,7 @@ def run(repo: Repo, rep, tier: str):
     c17.shared_class_state_rule(repo, rep, "C05", rule="R2s")
     lenient_read(repo, rep, "C05")
     canonical_forms(repo, rep, "C05")
+    elided_slots_fixed_point(repo, rep, "C05", "R6")
 
 
 # ------------------------------------------------------------------------------------ R1
@@ -453,6 +455,90 @@ def lenient_read(repo: Repo, rep, P: str):
                       f"validation failures must raise only in strict mode and otherwise just warn ({text})", f"src/python/rv/errors.py:{h.lineno}")
     else:
         rep.inconclusive(f"{P}.R4", hcon, norm(h)[:160], f"strict/lenient split not recognised ({text})", f"src/python/rv/errors.py:{h.lineno}")
+
+
+def elided_slots_fixed_point(repo: Repo, rep, P: str, rule: str):
+    """A chunk that the writer leaves out depending on the VALUE it would carry must come back as that value when it is absent.
+
+    SLnK (a module's incoming slot table) is left out when every slot is 0 or −1.  Saving and loading is then a fixed point only if a
+    module read without SLnK gets exactly 0 for every live link and −1 for every freed one.  The rule reads the elision guard from
+    the project writer and the values the end-of-file pass appends to `in_link_slots` of a module that has none; a rebuilt value
+    that is not one of the constants the guard admits means: a stored table of zeros that disagrees with the rebuild (two modules
+    claiming slot 0 of one source) is saved without SLnK, reloaded with other slots and saved WITH SLnK — the second save differs
+    from the first."""
+    from .. import codec, inline
+    from ..guards import canon as _canon, canon_text
+    from . import c01 as _c01
+    proj = repo.cls("Project", module="rv.project")
+    rows = codec.writer_rows(repo, proj, repo.own_method(proj, "chunks"))
+    slk = [r for r in rows if r.cid == "SLnK"]
+    wcon = f"{proj.file.rel}:Project.chunks[SLnK]"
+    if not slk:
+        rep.inconclusive(f"{P}.{rule}", wcon, "", "no SLnK row found in the project writer", proj.file.rel)
+        return
+
+    def cg_of(x: str) -> str:
+        try:
+            return _canon(_c01._simplify_guard(_c01._with_named_sets(repo, slk[0].rel, ast.parse(x, mode="eval").body)))
+        except SyntaxError:
+            return canon_text(x)
+    cg = [cg_of(x) for x in slk[0].guards]
+    value_guards = [x for x in cg if "in_link_slots" in x]
+    if not value_guards:
+        rep.ok(f"{P}.{rule}", wcon, str(cg)[:120], "SLnK is written whenever the link table is: nothing is left to the reader's default")
+        return
+    m_ = re.fullmatch(r"exists_notin\((\w+)\.in_link_slots;\[(.*)\]\)", value_guards[0])
+    if m_ is None or len(value_guards) != 1:
+        rep.inconclusive(f"{P}.{rule}", wcon, "; ".join(value_guards)[:160], "the condition under which SLnK is left out is not of a form this rule reads", slk[0].where)
+        return
+    try:
+        admitted = sorted(int(x) for x in m_.group(2).split(","))
+    except ValueError:
+        rep.inconclusive(f"{P}.{rule}", wcon, value_guards[0], "elided slot values not constant", slk[0].where)
+        return
+    # reader: what a module without SLnK gets
+    sv = repo.cls("SunVoxReader", module="rv.readers.sunvox")
+    eof = inline.normalize(repo, sv, repo.own_method(sv, "process_end_of_file"), aliases=True)
+    rcon = f"{sv.file.rel}:SunVoxReader.process_end_of_file"
+    from ..packed import resolve_in_block
+    rebuilt = []            # (text, constant or None, node)
+    for lp in [n for n in ast.walk(eof) if isinstance(n, ast.For) and isinstance(n.target, ast.Name)]:
+        mv = lp.target.id
+        skips = [st for st in lp.body if isinstance(st, ast.If) and f"{mv}.in_link_slots" in norm(st.test)]
+        if not skips:
+            continue             # not the pass that serves modules without stored slots
+        for c in ast.walk(lp):
+            if isinstance(c, ast.Call) and isinstance(c.func, ast.Attribute) and c.func.attr == "append" and norm(c.func.value) == f"{mv}.in_link_slots" and len(c.args) == 1:
+                v = c.args[0]
+                # a local assigned in the same block names its value
+                blocks = [n.body for n in ast.walk(lp) if isinstance(n, (ast.For, ast.If))] + [n.orelse for n in ast.walk(lp) if isinstance(n, ast.If)]
+                holding = [blk for blk in blocks if any(c is x for st in blk for x in ast.walk(st))]
+                if holding:
+                    inner_blk = min(holding, key=lambda blk: sum(1 for st in blk for _ in ast.walk(st)))
+                    v = resolve_in_block(v, inner_blk)
+                try:
+                    k = repo.fold(v, ci=sv)
+                except Exception:
+                    k = None
+                rebuilt.append((norm(v), k if isinstance(k, int) and not isinstance(k, bool) else None, c))
+    if not rebuilt:
+        rep.inconclusive(f"{P}.{rule}", rcon, "", "the pass that gives slots to a module read without SLnK was not found", f"{sv.file.rel}:{eof.lineno}")
+        return
+    free = [(t, n) for t, k, n in rebuilt if k is None]
+    outside = [(t, k, n) for t, k, n in rebuilt if k is not None and k not in admitted]
+    if not free and not outside:
+        rep.ok(f"{P}.{rule}", rcon, f"rebuilt slots {sorted({k for _, k, _ in rebuilt})} ⊆ elided values {admitted}",
+               "a table that was left out comes back as the same table")
+        return
+    t0 = (free[0][0] if free else outside[0][0])
+    t0 = re.sub(r"len\((.+?)\.(out_link_slots|out_links)\)", r"len(<source>.\2)", t0)
+    node = free[0][1] if free else outside[0][2]
+    rep.violation(f"{P}.{rule}", wcon, f"elided when all slots in {admitted}; rebuilt as {t0}",
+                  f"SLnK is left out whenever every stored slot is one of {admitted}, but a module read without SLnK gets `{t0}` for a live link, "
+                  "which is 0 only when this link is the first outgoing link of its source.  For a file whose explicit SLnK says 0 where that "
+                  "count is not 0 (two modules claiming slot 0 of one source; link bytes of other writers or mutated) the first save drops SLnK, "
+                  "the next load rebuilds different slots and the next save writes SLnK: load∘save is not a fixed point after one cycle",
+                  f"{sv.file.rel}:{getattr(node, 'lineno', eof.lineno)}")
 
 
 def canonical_forms(repo: Repo, rep, P: str):
